@@ -16,9 +16,12 @@ reply `[status, sol|null, obj|null, iters, ufSame, connected, comps, brute|null,
               `subsetB`, `chkSpanningTree`, `chkSpanningForest`, `chkMinCert` and `weight`
               evaluated on the implementation's edge list
 
-request `["prim", adj, start, implSol|null]`
-  adj : per node (dict-key order) the list of `[neighbour, w]`
-reply: same layout (`ufSame` is `true`, the edge list of the input is `arcs adj`).
+request `["prim", adj, start, implSol|null, edges]`
+  adj   : per node (dict-key order) the list of `[neighbour, w]`
+  edges : the edge list given to `kruskal` for the same graph
+reply: same layout (`ufSame` is `true`, the edge list of the input is `arcs adj`) followed by
+  `[goodAdj, sameGraph]` – the verified `goodAdjB adj` (hypothesis of `prim_tree`/`prim_minimal`)
+  and `sameGraphB edges (arcs adj)` (hypothesis of `kruskal_prim_agree`).
 -/
 namespace Solvor.Mst
 open Solvor.Proto
@@ -44,11 +47,12 @@ def implChk (n : Nat) (E : List Edge) : Option (List Edge) → Val
   | some T => Val.arr [Val.bool (subsetB T E), Val.bool (chkSpanningTree n E T),
       Val.bool (chkSpanningForest E T), Val.bool (chkMinCert E T), Val.int (weight T)]
 
-def reply (r : Result) (ufSame : Bool) (n : Nat) (E : List Edge) (impl : Option (List Edge)) : String :=
-  (Val.arr [Val.str r.status.name, Val.ofOpt ofEdges r.sol, Val.ofOpt Val.int r.obj, Val.int r.iters,
+def reply (r : Result) (ufSame : Bool) (n : Nat) (E : List Edge) (impl : Option (List Edge))
+    (extra : List Val := []) : String :=
+  (Val.arr ([Val.str r.status.name, Val.ofOpt ofEdges r.sol, Val.ofOpt Val.int r.obj, Val.int r.iters,
     Val.bool ufSame, Val.bool (connectedB n E), Val.int (compCount n E),
     (if E.length ≤ 12 then Val.ofOpt Val.int (mstBrute n E) else Val.null),
-    Val.bool (decide (0 < n) && validB n E), implChk n E impl]).render
+    Val.bool (decide (0 < n) && validB n E), implChk n E impl] ++ extra)).render
 
 def handle (line : String) : String :=
   match request line with
@@ -58,11 +62,12 @@ def handle (line : String) : String :=
       let r := kruskal n E af
       reply r (decide (kruskalUF n E af = r)) n E impl
     | _, _, _, _ => err "bad arguments"
-  | some ("prim", [adj, start, impl]) =>
-    match toAdj? adj, start.toNat?, impl.toOpt? toEdges? with
-    | some adj, some start, some impl =>
+  | some ("prim", [adj, start, impl, edges]) =>
+    match toAdj? adj, start.toNat?, impl.toOpt? toEdges?, toEdges? edges with
+    | some adj, some start, some impl, some E =>
       reply (prim adj start) true adj.length (arcs adj) impl
-    | _, _, _ => err "bad arguments"
+        [Val.arr [Val.bool (goodAdjB adj), Val.bool (sameGraphB E (arcs adj))]]
+    | _, _, _, _ => err "bad arguments"
   | _ => err "bad request"
 
 end Solvor.Mst
